@@ -133,77 +133,92 @@ Definition is_kconst (nl : netlist) (k c : Z) : bool :=
   match kind_of nl k with KConst c' => c' =? c | _ => false end.
 
 Section CpOk.
-Variable nl : netlist.
-Let nl' := constant_prop_pass nl.
-Let rho := cp_rho nl.
-Let K := cp_K nl.
+Variable nl nl' : netlist.
+Variable rho : wid -> wid.
+Variable K : list wid.
 
 (* the destination of an emitted net keeps its identity and width *)
-Definition cp_keep_dest (d : wid) : bool :=
+Definition cp_keep_dest_g (d : wid) : bool :=
   (rho d =? d) && negb (mem_in d K) && (width_of nl' d =? width_of nl d).
 
 (* width premises of cp_decide_sound (true of API-built nets) *)
-Definition cp_sound_pre (n : net) : bool :=
+Definition cp_sound_pre_g (n : net) : bool :=
   (width_of nl (ndest n) <=? width_of nl (arg n 0))
   && match nargs n with [a; b] => width_of nl a =? width_of nl b | _ => true end.
 
-Definition cp_alias_const (d k c : Z) : bool :=
+Definition cp_alias_const_g (d k c : Z) : bool :=
   (rho d =? k) && mem_in k K && (if declared nl' k then is_kconst nl' k c else true).
 
-Definition cp_comb_ok (n : net) : bool :=
+Definition cp_comb_ok_g (n : net) : bool :=
   let d := ndest n in
   let k := cp_kid nl n in
   let wd := width_of nl d in
   match cp_decide nl n with
   | CpKeep =>
-      cp_keep_dest d
+      cp_keep_dest_g d
       && forallb (fun a => declared nl' (rho a) && (width_of nl' (rho a) =? width_of nl a)) (nargs n)
   | CpConst c =>
-      cp_sound_pre n
+      cp_sound_pre_g n
       && if is_output nl d
-         then cp_keep_dest d && (rho k =? k) && mem_in k K && declared nl' k
+         then cp_keep_dest_g d && (rho k =? k) && mem_in k K && declared nl' k
               && is_kconst nl' k (c mod 2 ^ wd)
-         else cp_alias_const d k (c mod 2 ^ wd)
+         else cp_alias_const_g d k (c mod 2 ^ wd)
   | CpWire w =>
-      cp_sound_pre n
-      && if is_output nl d then cp_keep_dest d && declared nl' (rho w) else (rho d =? rho w)
+      cp_sound_pre_g n
+      && if is_output nl d then cp_keep_dest_g d && declared nl' (rho w) else (rho d =? rho w)
   | CpNot w =>
-      cp_sound_pre n && cp_keep_dest d && declared nl' (rho w)
+      cp_sound_pre_g n && cp_keep_dest_g d && declared nl' (rho w)
       && (width_of nl' (rho w) =? width_of nl w)
   end.
 
-Definition cp_reg_ok (n : net) : bool :=
+Definition cp_reg_ok_g (n : net) : bool :=
   let d := ndest n in
   match cp_decide nl n with
   | CpKeep => negb (cp_folded nl d) && (width_of nl' d =? width_of nl d) && declared nl' (rho (arg n 0))
   | CpConst _ =>
       negb (is_output nl d) && is_register nl d && is_const nl (arg n 0)
       && (cp_cst nl d =? const_val nl (arg n 0) mod 2 ^ width_of nl d)
-      && cp_alias_const d (cp_kid nl n) (cp_cst nl d)
+      && cp_alias_const_g d (cp_kid nl n) (cp_cst nl d)
   | _ => false
   end.
 
-Definition cp_wr_ok (n : net) : bool :=
+Definition cp_wr_ok_g (n : net) : bool :=
   match cp_decide nl n with
   | CpKeep => forallb (fun a => declared nl' (rho a)) (nargs n)
   | _ => false
   end.
 
-Definition cp_net_ok (n : net) : bool :=
-  if is_comb (nop n) then cp_comb_ok n
+Definition cp_net_ok_g (n : net) : bool :=
+  if is_comb (nop n) then cp_comb_ok_g n
   else match nop n with
-       | OpReg => cp_reg_ok n
-       | _ => cp_wr_ok n
+       | OpReg => cp_reg_ok_g n
+       | _ => cp_wr_ok_g n
        end.
 
-Definition cp_base_ok (w : wid) : bool :=
+Definition cp_base_ok_g (w : wid) : bool :=
   cp_folded nl w
   || ((rho w =? w)
       && (if declared nl' w then owire_eqb (find_wire (wires nl') w) (find_wire (wires nl) w) else true)).
 
-Definition cp_pass_ok : bool :=
-  forallb cp_net_ok (nets nl) && forallb cp_base_ok (rdy0 nl).
 End CpOk.
+
+Definition cp_keep_dest (nl : netlist) := cp_keep_dest_g nl (constant_prop_pass nl) (cp_rho nl) (cp_K nl).
+Definition cp_sound_pre (nl : netlist) := cp_sound_pre_g nl.
+Definition cp_alias_const (nl : netlist) := cp_alias_const_g (constant_prop_pass nl) (cp_rho nl) (cp_K nl).
+Definition cp_comb_ok (nl : netlist) := cp_comb_ok_g nl (constant_prop_pass nl) (cp_rho nl) (cp_K nl).
+Definition cp_reg_ok (nl : netlist) := cp_reg_ok_g nl (constant_prop_pass nl) (cp_rho nl) (cp_K nl).
+Definition cp_wr_ok (nl : netlist) := cp_wr_ok_g nl (constant_prop_pass nl) (cp_rho nl).
+Definition cp_net_ok (nl : netlist) := cp_net_ok_g nl (constant_prop_pass nl) (cp_rho nl) (cp_K nl).
+Definition cp_base_ok (nl : netlist) := cp_base_ok_g nl (constant_prop_pass nl) (cp_rho nl).
+
+(* the pass result, the producer map and the fresh constants are computed once *)
+Definition cp_pass_ok (nl : netlist) : bool :=
+  let nl' := constant_prop_pass nl in
+  let m := cp_map nl in
+  let rho := find_producer (S (length (nets nl))) m in
+  let K := cp_K nl in
+  forallb (cp_net_ok_g nl nl' rho K) (nets nl) && forallb (cp_base_ok_g nl nl' rho) (rdy0 nl).
+
 
 (* ---- links between a netlist and the result of one pass round (decidable) ------ *)
 
@@ -241,7 +256,9 @@ Definition shrinking_ok (ok : netlist -> bool) (pass : netlist -> netlist) (nl :
   loop_ok ok (S (S (length (nets nl)))) pass (1000 * Z.of_nat (length (nets nl))) nl.
 
 Definition cp_round_ok (nl : netlist) : bool :=
-  wfb nl && cp_pass_ok nl && link_ok nl (constant_prop_pass nl) (cp_rho nl).
+  wfb nl && cp_pass_ok nl
+  && (let m := cp_map nl in
+      link_ok nl (constant_prop_pass nl) (find_producer (S (length (nets nl))) m)).
 
 Definition constant_propagation_ok (nl : netlist) : bool :=
   shrinking_ok cp_round_ok constant_prop_pass nl.
@@ -259,20 +276,19 @@ Fixpoint nets_eqb (a b : list net) : bool :=
   end.
 
 Definition cse_wm (nl : netlist) : list (Z * Z) := snd (cse_scan nl [] (nets nl)).
-Definition cse_rho (nl : netlist) (w : wid) : wid :=
-  match assoc (cse_wm nl) w with Some d => d | None => w end.
-Definition cse_gone (nl : netlist) (n : net) : bool :=
-  normal_dest nl n && match assoc (cse_wm nl) (ndest n) with Some _ => true | None => false end.
-Definition cse_tr (nl : netlist) (n : net) : list net :=
-  if cse_gone nl n then [] else [map_args (cse_rho nl) n].
+Definition rho_of (wm : list (Z * Z)) (w : wid) : wid :=
+  match assoc wm w with Some d => d | None => w end.
+Definition cse_gone_g (nl : netlist) (wm : list (Z * Z)) (n : net) : bool :=
+  normal_dest nl n && match assoc wm (ndest n) with Some _ => true | None => false end.
+Definition cse_tr_g (nl : netlist) (wm : list (Z * Z)) (n : net) : list net :=
+  if cse_gone_g nl wm n then [] else [map_args (rho_of wm) n].
 
 (* a discarded net has an earlier net with the same key, an equally wide destination,
    and that destination is what it is replaced by; a kept net's wires keep their widths *)
-Definition cse_net_ok (nl : netlist) (pre : list net) (n : net) : bool :=
-  let nl' := cse_round nl in
-  let rho := cse_rho nl in
+Definition cse_net_ok_g (nl nl' : netlist) (wm : list (Z * Z)) (pre : list net) (n : net) : bool :=
+  let rho := rho_of wm in
   let d := ndest n in
-  if cse_gone nl n then
+  if cse_gone_g nl wm n then
     is_comb (nop n)
     && existsb (fun n0 => (ndest n0 =? rho d) && key_eqb (cse_key nl n0) (cse_key nl n)
                           && is_comb (nop n0)
@@ -282,24 +298,33 @@ Definition cse_net_ok (nl : netlist) (pre : list net) (n : net) : bool :=
     forallb (fun a => declared nl' (rho a) && (width_of nl' (rho a) =? width_of nl a)) (nargs n)
     && (if op_has_dest (nop n) then (rho d =? d) && (width_of nl' d =? width_of nl d) else true).
 
-Fixpoint cse_nets_ok (nl : netlist) (pre ns : list net) : bool :=
+Fixpoint cse_nets_ok_g (nl nl' : netlist) (wm : list (Z * Z)) (pre ns : list net) : bool :=
   match ns with
   | [] => true
-  | n :: r => cse_net_ok nl pre n && cse_nets_ok nl (pre ++ [n]) r
+  | n :: r => cse_net_ok_g nl nl' wm pre n && cse_nets_ok_g nl nl' wm (pre ++ [n]) r
   end.
 
-Definition cse_base_ok (nl : netlist) (w : wid) : bool :=
-  (cse_rho nl w =? w)
-  && (if declared (cse_round nl) w
-      then owire_eqb (find_wire (wires (cse_round nl)) w) (find_wire (wires nl) w) else true).
+Definition cse_base_ok_g (nl nl' : netlist) (wm : list (Z * Z)) (w : wid) : bool :=
+  (rho_of wm w =? w)
+  && (if declared nl' w then owire_eqb (find_wire (wires nl') w) (find_wire (wires nl) w) else true).
 
+Definition cse_rho (nl : netlist) : wid -> wid := rho_of (cse_wm nl).
+Definition cse_gone (nl : netlist) := cse_gone_g nl (cse_wm nl).
+Definition cse_tr (nl : netlist) := cse_tr_g nl (cse_wm nl).
+Definition cse_net_ok (nl : netlist) := cse_net_ok_g nl (cse_round nl) (cse_wm nl).
+Definition cse_nets_ok (nl : netlist) := cse_nets_ok_g nl (cse_round nl) (cse_wm nl).
+Definition cse_base_ok (nl : netlist) := cse_base_ok_g nl (cse_round nl) (cse_wm nl).
+
+(* the round's result and its wire map are computed once *)
 Definition cse_pass_ok (nl : netlist) : bool :=
-  nets_eqb (nets (cse_round nl)) (flat_map (cse_tr nl) (nets nl))
-  && cse_nets_ok nl [] (nets nl)
-  && forallb (cse_base_ok nl) (rdy0 nl).
+  let wm := cse_wm nl in
+  let nl' := cse_round nl in
+  nets_eqb (nets nl') (flat_map (cse_tr_g nl wm) (nets nl))
+  && cse_nets_ok_g nl nl' wm [] (nets nl)
+  && forallb (cse_base_ok_g nl nl' wm) (rdy0 nl).
 
 Definition cse_round_ok (nl : netlist) : bool :=
-  wfb nl && cse_pass_ok nl && link_ok nl (cse_round nl) (cse_rho nl).
+  wfb nl && cse_pass_ok nl && (let wm := cse_wm nl in link_ok nl (cse_round nl) (rho_of wm)).
 
 Definition cse_ok (nl : netlist) : bool := shrinking_ok cse_round_ok cse_round nl.
 
@@ -328,3 +353,24 @@ Definition optimize_ok (nl : netlist) : bool :=
   let n4 := remove_unlistened_nets n3 in
   wire_stage_ok nl && slice_stage_ok n1 && constant_propagation_ok n2
   && unlistened_stage_ok n3 && cse_ok n4.
+
+(* ---- the steady-state hypothesis, decidably (evaluated on the harness's initial state) *)
+
+Definition cp_steadyb (nl : netlist) (rg : wid -> Z) : bool :=
+  forallb (fun n => if cp_fold_net nl n then rg (ndest n) =? cp_cst nl (ndest n) else true) (nets nl).
+
+Fixpoint cp_loop_steadyb (fuel : nat) (prev : Z) (nl : netlist) (rg : wid -> Z) : bool :=
+  match fuel with
+  | O => true
+  | S f =>
+      let cur := Z.of_nat (length (nets nl)) in
+      if cur <=? prev - 1
+      then cp_steadyb nl rg && cp_loop_steadyb f cur (constant_prop_pass nl) rg
+      else true
+  end.
+
+Definition constant_propagation_steadyb (nl : netlist) (rg : wid -> Z) : bool :=
+  cp_loop_steadyb (S (S (length (nets nl)))) (1000 * Z.of_nat (length (nets nl))) nl rg.
+
+Definition optimize_steadyb (nl : netlist) (rg : wid -> Z) : bool :=
+  constant_propagation_steadyb (remove_slice_nets (remove_wire_nets nl)) rg.
